@@ -193,6 +193,9 @@ void body_stream(void*) {
   }
   int sm = draw(8);
   w->stop_mode = sm < 4 ? 0 : sm < 5 ? 1 : sm < 7 ? 2 : 3;
+  // (configuration comparison, C20: where a stopper thread's request lands is a matter of scheduling points, whose number differs between
+  //  debug and release builds; only stops placed at program points - before start, inside element k - are comparable across builds)
+  if (usim_param_int("cmp", 0) && w->stop_mode == 2) w->stop_mode = 3;
   w->stop_yields = draw_small(40);
   w->stop_elem = draw(4);
   if (usim_param_int("rthrow", 0) && draw(3) == 0) w->throw_elem = draw(4);
